@@ -172,7 +172,7 @@ def anchor_files(prop):
 def hygiene(ctx):
     """Rule G: structural hazards that break "the result depends on the stated inputs only" wherever they occur —
     shifted optional flags, closures outliving their loop iteration, single-pass iterables consumed twice, %-templates
-    assembled from data, in-place writes to class-level or memoised objects.  Each is decided from the source; on the
+    assembled from data, in-place writes to class-level or memoised objects, generators that modify what they already yielded.  Each is decided from the source; on the
     tree as it stands none occurs in any anchored file, so every finding is new."""
     files = [f for f in anchor_files(ctx.prop) if f in ctx.program.by_rel]
     if not files:
@@ -182,3 +182,77 @@ def hygiene(ctx):
     single_pass(ctx, "G", files)
     format_templates(ctx, "G", files)
     no_shared_default_writes(ctx, "G", files, allow=set(REGISTRIES))
+    yielded_then_mutated(ctx, "G", files)
+
+
+def publication(ctx, rule, modname, qual, live, what):
+    """Publishing by rename is one step.  In modname:qual, for every ``rename(tmp, X)`` whose destination is computed from
+    the *live* location (``live``: source tags, e.g. {"self:install_path"}):
+      * nothing deletes X on a path that leads to the rename (else there is a window with neither old nor new entry);
+      * nothing writes or creates anything below X after the rename (else a crash leaves a listed but incomplete entry).
+    Sites in resolved callees count (fsfx summaries)."""
+    from . import fsfx
+    from .cfg import cfg_of
+    fi = ctx.program.func_opt(modname, qual)
+    ctx.require(fi is not None, f"{modname}:{qual} not found")
+    eng = fsfx.engine(ctx.program)
+    sites = eng.sites(fi)
+    live = set(live)
+    renames = [s for s in sites if s.op == "rename" and (s.srcs & live)]
+    ctx.check(rule, fi, bool(renames), f"publishes-by-rename:{qual}", f"{qual} publishes {what} with a rename onto the live location",
+              f"{qual} no longer renames a finished temporary onto the live location ({sorted(live)}): {what} is not published atomically")
+    g = cfg_of(fi.node)
+    for r in renames:
+        rn = g.node_of(r.node)
+        for s in sites:
+            if s is r or not (s.srcs & live):
+                continue
+            sn = g.node_of(s.node)
+            if sn is None or rn is None:
+                continue
+            if s.op == "delete" and s.path == r.path and (rn in g.reach([sn]) or sn is rn):
+                ctx.fail(rule, fi, f"live-entry-removed-before-rename:{qual}",
+                         f"{qual} deletes `{s.path}` (line {s.node.lineno}{', via ' + s.via if s.via else ''}) and only then renames the new data onto it: between the two steps neither the "
+                         f"old nor the new {what} exists, and a crash or a failing rename loses both", node=s.node)
+            if s.op in ("write", "create") and sn in g.reach([rn]) and sn is not rn:
+                ctx.fail(rule, fi, f"written-after-publication:{qual}",
+                         f"{qual} still writes `{s.path}` (line {s.node.lineno}{', via ' + s.via if s.via else ''}) after the rename that made {what} visible: a crash in between leaves a listed "
+                         f"entry that lacks that file", node=s.node)
+    return len(renames)
+
+
+def per_item_isolation(ctx, rule, modname, qual, item_call, what):
+    """One bad item must not end the run for the rest: in modname:qual the call that processes one item (``item_call``:
+    predicate on a Call node, or a callee name) sits inside a ``try`` that is itself inside the item loop — so the
+    handler resumes with the next item.  A ``try`` hoisted around the loop ends the loop at the first failure."""
+    import ast
+    from . import astutil as A
+    fi = ctx.program.func_opt(modname, qual)
+    ctx.require(fi is not None, f"{modname}:{qual} not found")
+    pred = item_call if callable(item_call) else (lambda c: (A.call_name(c) or A.call_attr(c) or "").split(".")[-1] == item_call)
+    calls = [c for c in A.calls(fi.node) if pred(c)]
+    ctx.require(calls, f"{qual}: the per-item call not found")
+    for c in calls:
+        chain = list(A.parents(c))
+        tries = [p for p in chain if isinstance(p, ast.Try) and any(A.contains_node(s, c) or s is c for s in p.body) and p.handlers]
+        loops = [p for p in chain if isinstance(p, (ast.For, ast.While))]
+        ok = bool(tries) and bool(loops) and chain.index(tries[0]) < chain.index(loops[0])
+        ctx.check(rule, fi, ok, f"per-item-try:{qual}",
+                  f"{qual}: a failure while handling one {what} is caught inside the loop; the loop goes on with the next",
+                  f"{qual}: the exception handler around `{A.unparse(c)[:50]}` is not inside the {what} loop"
+                  + (" (the try encloses the loop)" if tries and loops else "") + f": the first {what} that fails ends the loop, and every {what} after it is silently skipped", node=c)
+
+
+def yielded_then_mutated(ctx, rule, files):
+    """no generator modifies in place an object it has already yielded (or passed into a yielded object)"""
+    from . import escape
+    files = set(files)
+    n = 0
+    for fi in _funcs_of(ctx.program, files):
+        n += 1
+        for y, s, var in escape.findings(ctx.program, fi):
+            ctx.fail(rule, fi, f"yielded-then-mutated:{fi.name}",
+                     f"{fi.qual}: `{s.target}` ({s.how}, line {s.line}) may be the very object already handed out by the `yield` at line {getattr(y, 'lineno', '?')}: "
+                     f"a caller that collected the earlier results (list(...)) sees that result change afterwards", node=s.node)
+    ctx.ob(rule, "generators", f"{n} functions in {len(files)} file(s): no generator mutates an object it has already yielded", file=sorted(files)[0] if files else "")
+    return n
